@@ -13,52 +13,80 @@ theorem wakeNext_regs (p : Pool) :
     q.running = p.running ∧ q.cancelledR = p.cancelledR ∧ q.ended = p.ended ∧ q.lost = p.lost := by
   simp
 
-theorem roomGranted_good {cap : Nat} (p : Pool) (m : Nat) (r : Req) (hph : PhaseOK p) (hreg : RegOK p) (v : Nat)
-    (hv : p.sem.value = .fin v) (hs : v + (heldL p.tasks + 1) + grantsL p.sem.waiters = cap) :
-    Good cap (p.roomGranted m r) := by
+theorem wakeNext_tasks (p : Pool) :
+    (({ p with sem := p.sem.wakeNext.1 } : Pool).schedOpt p.sem.wakeNext.2).tasks = p.tasks := by simp
+
+theorem wakeNext_inf (p : Pool) (hv : p.sem.value = .inf) (hw : p.sem.waiters = []) :
+    (({ p with sem := p.sem.wakeNext.1 } : Pool).schedOpt p.sem.wakeNext.2).sem.value = .inf ∧
+    (({ p with sem := p.sem.wakeNext.1 } : Pool).schedOpt p.sem.wakeNext.2).sem.waiters = [] := by
+  unfold Sem.wakeNext
+  simp [hv, hw, wakeNextL]
+
+theorem roomGranted_good {cap : Cap} (p : Pool) (m : Nat) (r : Req) (hph : PhaseOK p) (hreg : RegOK p)
+    (hpre : SlotPre cap p) : Good cap (p.roomGranted m r) := by
   unfold roomGranted
   simp only
   apply good_continueSpawner
   split
   · rename_i hz
-    have hpos : 0 < v := by
-      rcases Nat.eq_zero_or_pos v with rfl | h
-      · rw [hv] at hz; simp [Cap.isZero] at hz
-      · exact h
-    obtain ⟨v', h1, h2, h3⟩ := wakeNext_effect p v hv hpos
+    have h3 := wakeNext_tasks p
     obtain ⟨r1, r2, r3, r4⟩ := wakeNext_regs p
-    refine good_createTask_afterTake _ m _ ?_ (hreg.of_eq h3 r1 r2 r3 r4) v' h1 ?_
+    refine good_createTask_afterTake _ m _ ?_ (hreg.of_eq h3 r1 r2 r3 r4) ?_
     · intro i tk h hn; rw [h3] at h; exact hph i tk h hn
-    · rw [h3]; omega
-  · exact good_createTask_afterTake p m _ hph hreg v hv hs
+    · cases cap with
+      | fin n =>
+        obtain ⟨v, hv, hs⟩ := hpre
+        have hpos : 0 < v := by
+          rcases Nat.eq_zero_or_pos v with rfl | h
+          · rw [hv] at hz; simp [Cap.isZero] at hz
+          · exact h
+        obtain ⟨v', h1, h2, _⟩ := wakeNext_effect p v hv hpos
+        exact ⟨v', h1, by rw [h3]; omega⟩
+      | inf => exact wakeNext_inf p hpre.1 hpre.2
+  · exact good_createTask_afterTake p m _ hph hreg hpre
 
-theorem roomWaitCancelled_good {cap : Nat} (p : Pool) (m : Nat) (r : Req) (st : Option WaitSt) (hph : PhaseOK p)
-    (hreg : RegOK p) (v : Nat) (hv : p.sem.value = .fin v)
-    (hs : v + heldL p.tasks + (grantsL p.sem.waiters + (if st = some .granted then 1 else 0)) = cap) :
-    Good cap (p.roomWaitCancelled m r st) := by
+/-- slot conservation while a removed waiter entry may still carry a granted slot -/
+def SlotGrant (cap : Cap) (p : Pool) (st : Option WaitSt) : Prop :=
+  match cap with
+  | .fin n => ∃ v, p.sem.value = .fin v ∧
+      v + heldL p.tasks + (grantsL p.sem.waiters + (if st = some .granted then 1 else 0)) = n
+  | .inf => p.sem.value = .inf ∧ p.sem.waiters = []
+
+theorem roomWaitCancelled_good {cap : Cap} (p : Pool) (m : Nat) (r : Req) (st : Option WaitSt) (hph : PhaseOK p)
+    (hreg : RegOK p) (hsg : SlotGrant cap p st) : Good cap (p.roomWaitCancelled m r st) := by
   unfold roomWaitCancelled
   simp only
   have key : Good cap (if (st == some WaitSt.granted) = true then p.releasePool else p) := by
     split
     · rename_i h
       have hst : st = some .granted := by simpa using h
-      obtain ⟨v', h1, h2, h3⟩ := releasePool_effect p v hv
+      have h3 := releasePool_tasks' p
       obtain ⟨r1, r2, r3, r4⟩ := releasePool_regs p
-      refine ⟨⟨v', h1, ?_⟩, ?_, hreg.of_eq h3 r1 r2 r3 r4⟩
-      · rw [h3]; simp [hst] at hs; omega
+      refine ⟨?_, ?_, hreg.of_eq h3 r1 r2 r3 r4⟩
+      · cases cap with
+        | fin n =>
+          obtain ⟨v, hv, hs⟩ := hsg
+          obtain ⟨v', h1, h2, _⟩ := releasePool_effect p v hv
+          refine ⟨v', h1, ?_⟩
+          rw [h3]; simp [hst] at hs; omega
+        | inf => exact releasePool_inf p hsg.1 hsg.2
       · intro i tk h hn; rw [h3] at h; exact hph i tk h hn
     · rename_i h
       have hst : ¬ st = some .granted := by simpa using h
-      exact ⟨⟨v, hv, by simp [hst] at hs; omega⟩, hph, hreg⟩
+      refine ⟨?_, hph, hreg⟩
+      cases cap with
+      | fin n =>
+        obtain ⟨v, hv, hs⟩ := hsg
+        exact ⟨v, hv, by simp [hst] at hs; omega⟩
+      | inf => exact hsg
   refine (tame_finishMeta _ m _).good ?_
   split
   · exact (tame_releaseMap _ m).good key
   · exact key
 
-theorem good_wakeWaitRoom {cap : Nat} (p : Pool) (m : Nat) (r : Req) (hg : Good cap p) : Good cap (p.wakeWaitRoom m r) := by
+theorem good_wakeWaitRoom {cap : Cap} (p : Pool) (m : Nat) (r : Req) (hg : Good cap p) : Good cap (p.wakeWaitRoom m r) := by
   unfold wakeWaitRoom
   simp only
-  obtain ⟨v, hv, hs⟩ := hg.slot
   have hrm := removeWaiterL_grants m p.sem.waiters
   -- the pool after the waiter was removed and `mustCancel` cleared
   have hph : PhaseOK (({ p with sem := { p.sem with waiters := (removeWaiterL m p.sem.waiters).2 } } : Pool).modReq m
@@ -66,16 +94,37 @@ theorem good_wakeWaitRoom {cap : Nat} (p : Pool) (m : Nat) (r : Req) (hg : Good 
   have hreg : RegOK (({ p with sem := { p.sem with waiters := (removeWaiterL m p.sem.waiters).2 } } : Pool).modReq m
       fun x => { x with mustCancel := false }) := hg.reg.of_eq rfl rfl rfl rfl rfl
   split
-  · exact roomWaitCancelled_good _ m r _ hph hreg v hv (by simp only [modReq_sem, modReq_tasks]; omega)
+  · refine roomWaitCancelled_good _ m r _ hph hreg ?_
+    cases cap with
+    | fin n =>
+      obtain ⟨v, hv, hs⟩ := hg.slot
+      exact ⟨v, hv, by simp only [modReq_sem, modReq_tasks]; omega⟩
+    | inf =>
+      obtain ⟨hv, hw⟩ := hg.slot
+      exact ⟨hv, by simp [modReq, hw, removeWaiterL]⟩
   · split
     · rename_i hgr
       have hst : (removeWaiterL m p.sem.waiters).1 = some .granted := by simpa using hgr
-      exact roomGranted_good _ m r hph hreg v hv (by simp only [modReq_sem, modReq_tasks]; simp [hst] at hrm; omega)
+      refine roomGranted_good _ m r hph hreg ?_
+      cases cap with
+      | fin n =>
+        obtain ⟨v, hv, hs⟩ := hg.slot
+        exact ⟨v, hv, by simp only [modReq_sem, modReq_tasks]; simp [hst] at hrm; omega⟩
+      | inf =>
+      obtain ⟨hv, hw⟩ := hg.slot
+      exact ⟨hv, by simp [modReq, hw, removeWaiterL]⟩
     · rename_i hc hgr
       have hst : ¬ (removeWaiterL m p.sem.waiters).1 = some .granted := by simpa using hgr
-      exact ⟨⟨v, hv, by simp only [modReq_sem, modReq_tasks]; simp [hst] at hrm; omega⟩, hph, hreg⟩
+      refine ⟨?_, hph, hreg⟩
+      cases cap with
+      | fin n =>
+        obtain ⟨v, hv, hs⟩ := hg.slot
+        exact ⟨v, hv, by simp only [modReq_sem, modReq_tasks]; simp [hst] at hrm; omega⟩
+      | inf =>
+      obtain ⟨hv, hw⟩ := hg.slot
+      exact ⟨hv, by simp [modReq, hw, removeWaiterL]⟩
 
-theorem good_mapSemGranted {cap : Nat} (p : Pool) (m : Nat) (r : Req) (hg : Good cap p) : Good cap (p.mapSemGranted m r) := by
+theorem good_mapSemGranted {cap : Cap} (p : Pool) (m : Nat) (r : Req) (hg : Good cap p) : Good cap (p.mapSemGranted m r) := by
   unfold mapSemGranted
   simp only
   have h := good_mapStartTask (p.modReq m fun x => { x with acquired := true }) m ((tame_modReq p m _).good hg)
@@ -83,7 +132,7 @@ theorem good_mapSemGranted {cap : Nat} (p : Pool) (m : Nat) (r : Req) (hg : Good
   · exact good_mapLoop m _ _ h
   · exact h
 
-theorem good_wakeWaitMapSem {cap : Nat} (p : Pool) (m : Nat) (r : Req) (hg : Good cap p) : Good cap (p.wakeWaitMapSem m r) := by
+theorem good_wakeWaitMapSem {cap : Cap} (p : Pool) (m : Nat) (r : Req) (hg : Good cap p) : Good cap (p.wakeWaitMapSem m r) := by
   unfold wakeWaitMapSem
   simp only
   have hg0 := (tame_modReq p m (fun x => { x with mapSem := { x.mapSem with waiters := (removeWaiterL m r.mapSem.waiters).2 }, mustCancel := false })).good hg
@@ -96,7 +145,7 @@ theorem good_wakeWaitMapSem {cap : Nat} (p : Pool) (m : Nat) (r : Req) (hg : Goo
     · exact good_mapSemGranted _ m r hg0
     · exact hg0
 
-theorem good_stepMeta {cap : Nat} (p : Pool) (m : Nat) (hg : Good cap p) : Good cap (p.stepMeta m) := by
+theorem good_stepMeta {cap : Cap} (p : Pool) (m : Nat) (hg : Good cap p) : Good cap (p.stepMeta m) := by
   unfold stepMeta
   split
   · exact hg
@@ -149,7 +198,7 @@ theorem tame_gatherStart (p : Pool) (cs re owner n) : Tame p (p.gatherStart cs r
 
 theorem tame_finishApi (p : Pool) (a o) : Tame p (p.finishApi a o) := tame_modApi p a _
 
-theorem good_flushAfter2 {cap : Nat} (p : Pool) (a o) (hg : Good cap p) : Good cap (p.flushAfter2 a o) := by
+theorem good_flushAfter2 {cap : Cap} (p : Pool) (a o) (hg : Good cap p) : Good cap (p.flushAfter2 a o) := by
   unfold flushAfter2
   split
   · simp only
@@ -158,7 +207,7 @@ theorem good_flushAfter2 {cap : Nat} (p : Pool) (a o) (hg : Good cap p) : Good c
     exact hg.reg.flushForget _ _ _ rfl rfl rfl rfl (by simp)
   · exact (tame_finishApi p a _).good hg
 
-theorem good_flushAfter1 {cap : Nat} (p : Pool) (a re o) (hg : Good cap p) : Good cap (p.flushAfter1 a re o) := by
+theorem good_flushAfter1 {cap : Cap} (p : Pool) (a re o) (hg : Good cap p) : Good cap (p.flushAfter1 a re o) := by
   unfold flushAfter1
   split
   · exact (tame_finishApi p a _).good hg
@@ -171,7 +220,7 @@ theorem good_flushAfter1 {cap : Nat} (p : Pool) (a re o) (hg : Good cap p) : Goo
     · refine Tame.good ?_ hg
       exact Tame.trans (Tame.trans (Tame.trans h1 (tame_modApi _ a _)) (tame_gatherStart _ _ _ _ _)) (tame_modApi _ a _)
 
-theorem good_flushStage1 {cap : Nat} (p : Pool) (a re) (hg : Good cap p) : Good cap (p.flushStage1 a re) := by
+theorem good_flushStage1 {cap : Cap} (p : Pool) (a re) (hg : Good cap p) : Good cap (p.flushStage1 a re) := by
   unfold flushStage1
   simp only
   have h1 : Tame p ({ p with reqs := p.reqs.map fun (r : Req) => if r.inRunning && r.outcome.isSome then { r with inRunning := false } else r } : Pool) :=
@@ -180,7 +229,7 @@ theorem good_flushStage1 {cap : Nat} (p : Pool) (a re) (hg : Good cap p) : Good 
   · exact good_flushAfter1 _ a re _ ((Tame.trans h1 (tame_gatherStart _ _ _ _ _)).good hg)
   · exact (Tame.trans (Tame.trans h1 (tame_gatherStart _ _ _ _ _)) (tame_modApi _ a _)).good hg
 
-theorem good_gacAfter2 {cap : Nat} (p : Pool) (a o) (hg : Good cap p) : Good cap (p.gacAfter2 a o) := by
+theorem good_gacAfter2 {cap : Cap} (p : Pool) (a o) (hg : Good cap p) : Good cap (p.gacAfter2 a o) := by
   unfold gacAfter2
   split
   · simp only
@@ -189,7 +238,7 @@ theorem good_gacAfter2 {cap : Nat} (p : Pool) (a o) (hg : Good cap p) : Good cap
     exact ⟨hg.slot, hg.phase, hg.reg.gacClear _ rfl rfl rfl rfl rfl⟩
   · exact (tame_finishApi p a _).good hg
 
-theorem good_gacAfter1 {cap : Nat} (p : Pool) (a re g) (hg : Good cap p) : Good cap (p.gacAfter1 a re g) := by
+theorem good_gacAfter1 {cap : Cap} (p : Pool) (a re g) (hg : Good cap p) : Good cap (p.gacAfter1 a re g) := by
   unfold gacAfter1
   simp only
   split
@@ -200,7 +249,7 @@ theorem good_gacAfter1 {cap : Nat} (p : Pool) (a re g) (hg : Good cap p) : Good 
     · exact good_gacAfter2 _ a _ ((Tame.trans h1 (tame_gatherStart _ _ _ _ _)).good hg)
     · exact (Tame.trans (Tame.trans h1 (tame_gatherStart _ _ _ _ _)) (tame_modApi _ a _)).good hg
 
-theorem good_gacStage1 {cap : Nat} (p : Pool) (a re) (hg : Good cap p) : Good cap (p.gacStage1 a re) := by
+theorem good_gacStage1 {cap : Cap} (p : Pool) (a re) (hg : Good cap p) : Good cap (p.gacStage1 a re) := by
   unfold gacStage1
   simp only
   split
@@ -216,7 +265,7 @@ theorem tame_untilClosedStart (p : Pool) (a) : Tame p (p.untilClosedStart a) := 
   · refine Tame.trans ?_ (tame_modApi _ a _)
     exact tame_of_eq _ _ rfl rfl
 
-theorem good_stepApi {cap : Nat} (p : Pool) (a) (hg : Good cap p) : Good cap (p.stepApi a) := by
+theorem good_stepApi {cap : Cap} (p : Pool) (a) (hg : Good cap p) : Good cap (p.stepApi a) := by
   unfold stepApi
   split
   · exact hg
@@ -230,7 +279,7 @@ theorem good_stepApi {cap : Nat} (p : Pool) (a) (hg : Good cap p) : Good cap (p.
                      | exact good_flushAfter2 _ _ _ hg0 | exact good_gacAfter2 _ _ _ hg0 | split)
 
 /-- running any handle preserves `Good` -/
-theorem good_runRef {cap : Nat} (p : Pool) (r : Ref) (hg : Good cap p) : Good cap (p.runRef r) := by
+theorem good_runRef {cap : Cap} (p : Pool) (r : Ref) (hg : Good cap p) : Good cap (p.runRef r) := by
   cases r with
   | task t => exact good_stepTask p t hg
   | spawner m => exact good_stepMeta p m hg
